@@ -136,6 +136,7 @@ def observe(api, timeout=20.0, touch=False):
     from . import build as _b
     _b.TOUCH[0] = touch in (True, 1)
     IDXFIRST[0] = touch == 2
+    import os
     for t in (timeout, 3 * timeout):
         try:
             r = _observe_once(api, t)
@@ -143,6 +144,11 @@ def observe(api, timeout=20.0, touch=False):
             r = None
         if r is not None:
             return r
+        try:                            # only a LOADED machine earns a second, longer try
+            if os.getloadavg()[0] < 1.25 * (os.cpu_count() or 1):
+                break
+        except OSError:
+            pass
     return refused('HANG')
 
 
